@@ -21,10 +21,17 @@ def scratch(c):
 
 
 # ------------------------------------------------------------------------------------ M + R for ArgEval
-def model_behaviours(c, tier, cfgsel=None):
-    """Runs MCArgEval; returns (cfgs, behaviours) where a behaviour is the `a` record of an EDGE line."""
+def model_behaviours(c, tier, cfgsel=None, maxuses=None):
+    """Runs MCArgEval on a selection of its configuration family; returns (cfgs, behaviours) where a
+    behaviour is the `a` record of an EDGE line (one finished evaluation of one spelling)."""
+    maxuses = maxuses or (2 if tier == "quick" else 3)
+    sel = "{" + ", ".join(str(x) for x in sorted(cfgsel or [])) + "}"
+    cfgpath = os.path.join(c.wd, "MCArgEval_run.cfg")
+    with open(cfgpath, "w") as f:
+        f.write("SPECIFICATION MCSpec\nCONSTANTS MaxUses = %d\n          CfgSel = %s\n"
+                "INVARIANTS CursorInv AgreesInv ClosureInv\nACTION_CONSTRAINT EdgeOut\nCHECK_DEADLOCK FALSE\n" % (maxuses, sel))
     so = os.path.join(mkdir(os.path.join(OUT, "tlcout")), "MCArgEval_%s_%s.out" % (c.prop, tier))
-    r = run_tlc(SPEC, "MCArgEval", "MCArgEval_%s.cfg" % tier, workers=NCPU, timeout=3000, xmx="16g", stdout_path=so)
+    r = run_tlc(SPEC, "MCArgEval", cfgpath, workers=NCPU, timeout=3000, xmx="20g", stdout_path=so)
     if r.error:
         raise MachineryError("MCArgEval: " + r.error)
     cfgs, beh = None, []
@@ -34,17 +41,17 @@ def model_behaviours(c, tier, cfgsel=None):
                 cfgs = json.loads(json.loads(line)[5:])
             elif line.startswith('"EDGE '):
                 beh.append(json.loads(json.loads(line)[5:])["a"])
-    c.add_model("MCArgEval/%s" % tier, r, edges=beh)
+    c.add_model("MCArgEval/cfgs=%s/maxuses=%d" % (sel, maxuses), r, edges=beh)
     if not r.violation:
         if not cfgs or not beh:
             raise MachineryError("MCArgEval printed no behaviours")
         st = collections.Counter((b["valid"], b["out"]) for b in beh)
-        c.notes.append("MCArgEval %s: %d behaviours (configuration x abstract line x spelling): %s" % (
-            tier, len(beh), ", ".join("valid=%s/out=%s: %d" % (k[0], k[1], v) for k, v in sorted(st.items(), key=str))))
+        c.notes.append("MCArgEval cfgs=%s maxuses=%d: %d behaviours (configuration x abstract line x spelling): %s" % (
+            sel, maxuses, len(beh), ", ".join("valid=%s/out=%s: %d" % (k[0], k[1], v) for k, v in sorted(st.items(), key=str))))
         # vacuity guard: the declarative property must have been exercised on both sides
         if st.get((True, "ok"), 0) == 0 or st.get((False, "err"), 0) == 0:
             raise MachineryError("vacuous MCArgEval run: %s" % dict(st))
-    log("[M] MCArgEval %s: %d distinct, %d behaviours, %.1fs%s" % (tier, r.distinct, len(beh), r.wall,
+    log("[M] MCArgEval cfgs=%s maxuses=%d: %d distinct, %d behaviours, %.1fs%s" % (sel, maxuses, r.distinct, len(beh), r.wall,
                                                                  " VIOLATION " + r.violation if r.violation else ""))
     return cfgs, beh
 
